@@ -32,7 +32,9 @@ def parse_double_key(text, want_bits, got_bits):
     generic = 'corr:parse-double-rounding'
     be = (want_bits >> 52) & 0x7ff
     if be > 11: return generic
-    if abs(got_bits - want_bits) == 1:
+    mask = (1 << 63) - 1
+    # exactly one ulp between two NON-ZERO values of the same sign (a value flushed to zero is never the known finding)
+    if abs(got_bits - want_bits) == 1 and (got_bits & mask) != 0 and (want_bits & mask) != 0 and (got_bits >> 63) == (want_bits >> 63):
         return generic + ':grisu3-diy-fp:' + ('biased-exp-2..11' if be >= 2 else 'denormal-one-ulp')
     # surplus fractional zeros counted into the exponent (grisu3_parse_double): needs >= 20 mantissa digits and a fraction;
     # the result is the value times a power of ten
@@ -353,6 +355,11 @@ def gen_cases(ctx, rng, add, impl_only, doc_expect):
         f32.add(rng.getrandbits(31)); f64.add(rng.getrandbits(63))
         f64.add(rng.getrandbits(52))                               # denormal
         f64.add((rng.randrange(1, 16) << 52) | rng.getrandbits(52))  # lowest binades
+    # bottom of the range, always, both signs: least denormals, largest denormal, DBL_MIN / FLT_MIN +- a few ulps
+    for b in [1, 2, 3, 4, 5, 7, 8] + [0x000fffffffffffff + d for d in range(-3, 4)] + [0x0010000000000000 + d for d in range(0, 4)]:
+        f64.add(b); f64.add(b | (1 << 63))
+    for b in [1, 2, 3, 4, 5, 7, 8] + [0x007fffff + d for d in range(-3, 4)] + [0x00800000 + d for d in range(0, 4)]:
+        f32.add(b); f32.add(b | 0x80000000)
     f64.add(32242815376328263)           # 1.6509595210255934e-306: the recorded replay of the known grisu3 finding
     f64.add(9223372069417456422)         # -1.6088101828e-313: its (rare) denormal variant
     f32 = sorted(b for b in f32 if U.finite32(b)); f64 = sorted(b for b in f64 if U.finite64(b))
@@ -367,7 +374,11 @@ def gen_cases(ctx, rng, add, impl_only, doc_expect):
     ftexts = set(['0', '-0', '0.0', '1', '-1', '0.1', '0.5', '1e0', '1E0', '1e+0', '1e-0', '123456789012345678', '1e22', '1e23', '9007199254740993', '9007199254740995',
                   '1.7976931348623157e308', '1.7976931348623158e308', '1.7976931348623159e308', '1e308', '1e309', '1e400', '-1e400', '4.9e-324', '5e-324', '2.4703282292062327e-324',
                   '2.4703282292062328e-324', '2.5e-324', '1e-400', '3.4028234e38', '3.4028235e38', '3.4028236e38', '3.5e38', '1e39', '1.4e-45', '7e-46', '7.1e-46', '1e-46',
-                  '8.408273894908684e-308', '1.6509595210255934e-306', '8981.02305e-317', '5329518.9303924732580e-318', '6.665684465322710663031095e-307', '2.2250738585072014e-308', '2.225073858507201e-308', '0.000001', '100', '1000000', '123.456', '0.30000000000000004'])
+                  '8.408273894908684e-308', '1.6509595210255934e-306', '8981.02305e-317', '5329518.9303924732580e-318',
+                  # spellings around the least denormal 2^-1074 = 4.94065645841246544e-324 and its half 2.470328229206232720e-324
+                  '-5e-324', '-4.9e-324', '4.94065645841246544e-324', '4.9406564584124654e-324', '49.4e-325', '494e-326', '0.5e-323', '1e-323', '-1e-323', '1.5e-323',
+                  '9.9e-324', '7.4e-324', '7.5e-324', '3e-324', '2.5e-324', '2.47032822920623272e-324', '2.47032822920623273e-324', '-2.4703282292062328e-324',
+                  '2.4e-324', '1e-324', '9e-325', '2.2250738585072011e-308', '2.2250738585072009e-308', '1.4012984643e-45', '7.1e-46', '7.0e-46', '1.17549435e-38', '1.17549429e-38', '6.665684465322710663031095e-307', '2.2250738585072014e-308', '2.225073858507201e-308', '0.000001', '100', '1000000', '123.456', '0.30000000000000004'])
     for _ in range(3000 if T else 500):
         nd = rng.choice([1, 2, 5, 9, 15, 16, 17, 17, 18, 19, 20, 21, 25])
         ds = str(rng.randrange(10 ** (nd - 1), 10 ** nd))
@@ -493,7 +504,9 @@ def judge_impl_only(ctx, klass, line, i, doc_expect, oracle_q):
         val = U.bits2f(bits) if w == 32 else U.bits2d(bits)
         if int(pbits) != bits or int(pk) != len(text):
             rkey = '%s-roundtrip' % name
-            if w == 64 and int(pk) == len(text) and abs(int(pbits) - bits) == 1 and ((bits >> 52) & 0x7ff) <= 11:
+            m63 = (1 << 63) - 1
+            if (w == 64 and int(pk) == len(text) and abs(int(pbits) - bits) == 1 and ((bits >> 52) & 0x7ff) <= 11
+                    and (int(pbits) & m63) != 0 and (bits & m63) != 0 and (int(pbits) >> 63) == (bits >> 63)):
                 rkey += ':' + (GRISU_CLASS if in_grisu_class(bits) else 'grisu3-diy-fp:denormal-one-ulp')
             viol(ctx, rkey, 'print_%s(bits %d = %r) = "%s", parse_%s gives bits %s (consumed %s of %d): print then parse is not the identity'
                  % (name, bits, val, text, name, pbits, pk, len(text)), line, None, i, {'text': text})
